@@ -1,4 +1,5 @@
 import TpmProofs.E2OSpec
+import TpmProofs.E2OMsg
 import TpmProofs.Props.C11
 import TpmProofs.Props.AcceptIff
 /-!
@@ -42,6 +43,63 @@ theorem c11_decoder_object_is_rebuilt (t : Ty) (ht : t ∈ Generated.allTypes) (
   exact ⟨evs, hs, C01.c01_top t v x evs hs _,
     c11_events_to_obj Generated.msgTables t (List.all_eq_true.mp c11_e2o_tables t ht) v x evs hs⟩
 
+/-! ### whole runs: the events the consumer sees -/
+
+/-- the `MarshalEvent`s among the events a run yields (what `events_to_obj` keeps) -/
+def marshalEvents (r : Run) : List MEvent :=
+  r.events.filterMap fun ke => match ke.2 with
+    | .marshal m => some m
+    | .warning _ => none
+
+theorem marshalEvents_shown (n : Nat) (evs : List SEv) (o : Outcome) (cc : Option Int) :
+    marshalEvents ⟨shown n (stamp 0 evs), o, cc⟩ = evs.map (·.2) := by
+  simp only [marshalEvents, shown, stamp, List.filterMap_map]
+  induction evs with
+  | nil => rfl
+  | cons e rest ih =>
+    rw [List.filterMap_cons, ih]
+    simp
+
+theorem type_run (tb : MsgTables) (t : Ty) (v : Val) (bs : List Byte) (evs : List SEv)
+    (h : spec t rootPath none v = some (bs, evs)) :
+    marshalRun true tb (.ty t) bs = ⟨shown bs.length (stamp 0 evs), .done v, ccAfter (stamp 0 evs) none⟩ := by
+  have hw := C01.c01_top t v bs evs h tb
+  simp only [marshalRun, Top.isStream, pump, hw, stOf, resOf]
+  rw [pumpEvents_all false _ _ _ _ (by intro ke _; simp)]
+  simp [pumpOutcome]
+
+/-- (tables) the message tables of `/repo` meet the side conditions (handle / parameter layouts of every command, their
+`.encrypted()` variants, the session layouts, the shape of `TPM2B_ENCRYPTED_PARAM`) -/
+theorem c11_e2o_msg_tables : Generated.msgTables.eo = true := by decide +kernel
+
+/-- **C11, structures**: whenever strict decoding of `x` as a `t` completes with object `v`, `events_to_obj` of the marshal
+events the run yielded is `v` (every layout of `/repo`, every input) -/
+theorem c11_type_rebuilt (t : Ty) (ht : t ∈ Generated.allTypes) (x : List Byte) (v : Val)
+    (h : (marshalRun true Generated.msgTables (.ty t) x).outcome = .done v) :
+    e2oTop Generated.msgTables (.ty t) (marshalEvents (marshalRun true Generated.msgTables (.ty t) x)) = some v := by
+  obtain ⟨evs, hs⟩ := (AcceptIff.type_accept_iff t ht x v).mp h
+  rw [type_run _ t v x evs hs, marshalEvents_shown]
+  exact c11_events_to_obj Generated.msgTables t (List.all_eq_true.mp c11_e2o_tables t ht) v x evs hs
+
+/-- **C11, commands**: whenever strict decoding of `x` as a command completes with object `v`, `events_to_obj` of the
+marshal events the run yielded is `v` — sessions, empty session areas and encrypted parameter areas included -/
+theorem c11_command_rebuilt (x : List Byte) (v : Val)
+    (h : (marshalRun true Generated.msgTables .command x).outcome = .done v) :
+    e2oTop Generated.msgTables .command (marshalEvents (marshalRun true Generated.msgTables .command x)) = some v := by
+  obtain ⟨p, evs, rfl, hs⟩ := (AcceptIff.command_accept_iff x v).mp h
+  rw [MsgWF.c01_command p x evs hs, marshalEvents_shown]
+  exact cmd_events_to_obj Generated.msgTables c11_e2o_msg_tables p x evs hs
+
+/-- **C11, responses**: the same for every command code and parameter-encryption flag (failed responses, responses with and
+without sessions, encrypted parameter areas) -/
+theorem c11_response_rebuilt (cc : Option Int) (enc : Bool) (x : List Byte) (v : Val)
+    (h : (marshalRun true Generated.msgTables (.response cc enc) x).outcome = .done v) :
+    e2oTop Generated.msgTables (.response cc enc)
+      (marshalEvents (marshalRun true Generated.msgTables (.response cc enc) x)) = some v := by
+  obtain ⟨p, evs, rfl, hs⟩ := (AcceptIff.response_accept_iff cc enc x v).mp h
+  rw [MsgWF.c01_response cc enc p x evs hs, marshalEvents_shown]
+  exact rsp_events_to_obj Generated.msgTables c11_e2o_msg_tables cc enc p x evs hs
+
 /-- non-vacuity: the `TPML_DIGEST_VALUES` example (null arm and SHA-1 arm) is rebuilt from its 30 events -/
 example : ∃ bs evs, spec Generated.T_TPML_DIGEST_VALUES rootPath none C01.exampleDigests = some (bs, evs) ∧ evs.length = 30 ∧
     e2oTop Generated.msgTables (.ty Generated.T_TPML_DIGEST_VALUES) (evs.map (·.2)) = some C01.exampleDigests := by
@@ -53,5 +111,26 @@ example : ∃ bs evs, spec Generated.T_TPML_DIGEST_VALUES rootPath none C01.exam
         have : (spec Generated.T_TPML_DIGEST_VALUES rootPath none C01.exampleDigests).map (·.2.length) = some 30 := by decide +kernel
         rw [hs] at this; simpa using this⟩
   exact ⟨bs, evs, h, hl, c11_events_to_obj _ _ (List.all_eq_true.mp c11_e2o_tables _ (by decide +kernel)) _ _ _ h⟩
+
+set_option maxRecDepth 100000 in
+/-- non-vacuity: the `TPM2_StirRandom` command with a `decrypt` session (opaque parameter area) is accepted, and its object is
+rebuilt from its events, `.encrypted()` variant included -/
+example : ∃ bs evs, specCommand Generated.msgTables rootPath MsgWF.exCmd = some (bs, evs) ∧
+    e2oTop Generated.msgTables .command (evs.map (·.2)) = some MsgWF.exCmd.toVal := by
+  cases hs : specCommand Generated.msgTables rootPath MsgWF.exCmd with
+  | none =>
+    have : (specCommand Generated.msgTables rootPath MsgWF.exCmd).isSome = true := by decide +kernel
+    rw [hs] at this; cases this
+  | some r => exact ⟨r.1, r.2, rfl, cmd_events_to_obj _ c11_e2o_msg_tables _ _ _ hs⟩
+
+set_option maxRecDepth 100000 in
+/-- non-vacuity: the `TPM2_GetRandom` response with an `encrypt` session -/
+example : ∃ bs evs, specResponse Generated.msgTables (some 379) true rootPath MsgWF.exRsp = some (bs, evs) ∧
+    e2oTop Generated.msgTables (.response (some 379) true) (evs.map (·.2)) = some MsgWF.exRsp.toVal := by
+  cases hs : specResponse Generated.msgTables (some 379) true rootPath MsgWF.exRsp with
+  | none =>
+    have : (specResponse Generated.msgTables (some 379) true rootPath MsgWF.exRsp).isSome = true := by decide +kernel
+    rw [hs] at this; cases this
+  | some r => exact ⟨r.1, r.2, rfl, rsp_events_to_obj _ c11_e2o_msg_tables _ _ _ _ _ hs⟩
 
 end C11
